@@ -273,7 +273,7 @@ def literal_pool(ctx):
     for t in L.NUM_TEXTS_INT + L.NUM_TEXTS_FLOAT:
         pool.append(L.num_lit(t))
         pool.append(L.num_lit(t, neg=True))
-    extra = ctx.n(400, 80000)
+    extra = ctx.n(800, 80000)
     for i in range(extra):
         r = rnd.random()
         if r < 0.4:
